@@ -33,13 +33,16 @@ LogBin(s, x) == IF x < 1 THEN -1
                 ELSE LET k == LogK(s, IPow(x, s.m), 0) IN IF k >= s.nbins THEN s.nbins ELSE k
 \* value codes 100000 + 10 j + side: a value just below (side 1) or just above (side 2) bin edge j - at a distance of 1e-10
 \* of a bin (relative 1e-10 for logarithmic edges), i.e. clearly in one bin and far outside any rounding ambiguity of the edge
-IsNear(x) == x >= 100000
+\* value codes 200001..200004: +1e300, +Inf, -1e300, -Inf (far beyond any range: over- and underflow)
+IsFar(x) == x >= 200000
+FarBin(s, x) == IF x <= 200002 THEN s.nbins ELSE -1
+IsNear(x) == x >= 100000 /\ x < 200000
 NearJ(x) == (x - 100000) \div 10
 NearBin(s, x) == LET k == IF (x - 100000) % 10 = 1 THEN NearJ(x) - 1 ELSE NearJ(x) IN
                  IF k < 0 THEN -1 ELSE IF k >= s.nbins THEN s.nbins ELSE k
-BinOf(s, x) == IF IsNear(x) THEN NearBin(s, x) ELSE IF s.kind = "lin" THEN LinBin(s, x) ELSE LogBin(s, x)
+BinOf(s, x) == IF IsFar(x) THEN FarBin(s, x) ELSE IF IsNear(x) THEN NearBin(s, x) ELSE IF s.kind = "lin" THEN LinBin(s, x) ELSE LogBin(s, x)
 \* is x exactly on an edge (for shapes whose float edges are inexact the binder may accept either side)
-OnEdge(s, x) == IF IsNear(x) THEN FALSE ELSE IF s.kind = "lin" THEN ((x - s.min) * s.nbins) % (s.max - s.min) = 0
+OnEdge(s, x) == IF IsNear(x) \/ IsFar(x) THEN FALSE ELSE IF s.kind = "lin" THEN ((x - s.min) * s.nbins) % (s.max - s.min) = 0
                 ELSE x >= 1 /\ IPow(s.b, LogK(s, IPow(x, s.m), 0)) = IPow(x, s.m)
 
 Init == /\ shape \in Shapes
@@ -91,6 +94,8 @@ Emit == PrintT(ToJson([shape |-> shape, adds |-> adds, under |-> under, bins |->
 
 ShapesQuick == {
   [kind |-> "lin", min |-> 0,   max |-> 30,  nbins |-> 3, unit |-> 1, xs |-> <<100001, 100002, 100011, 100012, 100021, 100022, 100031, 100032, 5>>],
+  [kind |-> "lin", min |-> -4,  max |-> 12,  nbins |-> 4, unit |-> 1, xs |-> <<-5, 0, 11, 12, 200001, 200002, 200003, 200004>>],
+  [kind |-> "log", b |-> 10, m |-> 2, nbins |-> 3, xs |-> <<0, 1, 9, 40, 200001, 200002, 200003, 200004>>],
   [kind |-> "log", b |-> 10, m |-> 1, nbins |-> 3, xs |-> <<100001, 100002, 100011, 100012, 100021, 100022, 100031, 100032, 7>>],
   [kind |-> "log", b |-> 2,  m |-> 3, nbins |-> 5, xs |-> <<100001, 100002, 100011, 100022, 100041, 100042, 100051, 100052, 3>>],
   [kind |-> "lin", min |-> 0,   max |-> 64,  nbins |-> 4, unit |-> 8, xs |-> <<-200, -9, -1, 0, 15, 16, 17, 63, 64, 700>>],
